@@ -7,7 +7,7 @@ generator cursor discipline (H-YIELD); attribute classification over forms x ver
 """
 import ast
 from sa.world import get_world
-from sa import dwconf, layout, expr, paths, streams, dispatch, literals, hrules
+from sa import dwconf, layout, expr, paths, streams, dispatch, literals, hrules, owner
 from sa.absint import FuncV, Unknown
 from sa.report import AnalysisError
 from spec import dwarf as D
@@ -92,8 +92,10 @@ def run(ctx):
                  ('G-FLD', 'translators read only fields their case struct defines'), ('G-SIG', 'translator outputs'),
                  ('W-V4', 'pre-v5 list parsers'), ('I-WIDTH', 'format-selected widths are 4/8 bytes'), ('E-i', 'enumeration formulas'),
                  ('E-iii', 'attribute classification'), ('H-CUR', 'cursor discipline'), ('H-YIELD', 'no generator resumes into a relative use'),
-                 ('G-LIT', 'enum literals defined')):
+                 ('G-LIT', 'enum literals defined'), ('G-OWNER', 'size-dependent facts are read from the unit that owns the data')):
         ctx.rule(r, d)
+    ctx.guard('G-OWNER', 'owners', owner.gowner, ctx, w, ('dwarf/ranges.py', 'dwarf/locationlists.py', 'dwarf/dwarfinfo.py', 'dwarf/dwarf_util.py'))
+    ctx.floor('G-OWNER', 9)
     ctx.guard('L-CONF', 'loclists header', dwconf.check_struct, ctx, w, 'Dwarf_loclists_CU_header', D.LISTS_HEADER)
     ctx.guard('L-CONF', 'rnglists header', dwconf.check_struct, ctx, w, 'Dwarf_rnglists_CU_header', D.LISTS_HEADER)
     ctx.guard('L-CONF', 'entries', check_entries, ctx, w)
@@ -355,6 +357,8 @@ def check_classification(ctx, w):
 
 
 MUTANTS = [
+    ('get-addr-container-size', 'dwarf/dwarfinfo.py', "cu_addr_base + addr_index*cu.header.address_size)", "cu_addr_base + addr_index*self.structs.address_size)", 'G-OWNER'),
+    ('get-addr-container-width', 'dwarf/dwarfinfo.py', "return struct_parse(cu.structs.the_Dwarf_target_addr, self.debug_addr_sec.stream,", "return struct_parse(self.structs.the_Dwarf_target_addr, self.debug_addr_sec.stream,", 'G-OWNER'),
     ('start-length-addr', 'dwarf/structs.py', "'DW_LLE_start_length'     : Struct('start_length', self.Dwarf_target_addr('start_address'), self.Dwarf_uleb128('length'), cld),",
      "'DW_LLE_start_length'     : Struct('start_length', self.Dwarf_target_addr('start_address'), self.Dwarf_target_addr('length'), cld),", 'L-CONF'),
     ('rle-length-only', RG, "lambda e, cu: RangeEntry(e.entry_offset, e.entry_length, e.start_address, e.start_address + e.length, True),", "lambda e, cu: RangeEntry(e.entry_offset, e.entry_length, e.start_address, e.length, True),", 'G-SIG'),
